@@ -24,6 +24,10 @@ def make():
         nonlocal v
         v = x
 
+    def del_v():
+        nonlocal v
+        del v
+
     def set_w(x):
         nonlocal w
         w = x
@@ -97,5 +101,5 @@ def make():
     def b_S17(ds):
         return ds.Select(d17)
 
-    return {"S23": b_S23, "S20": b_S20, "S21": b_S21, "S22": b_S22, "S18": b_S18, "S19": b_S19, "S17": b_S17, "S15": b_S15, "S16": b_S16, "S13": b_S13, "S14": b_S14, "set_v": set_v, "set_w": set_w, "S1": b_S1, "S2": b_S2, "S3": b_S3, "S4": b_S4, "S5": b_S5,
+    return {"S23": b_S23, "S20": b_S20, "S21": b_S21, "S22": b_S22, "S18": b_S18, "S19": b_S19, "S17": b_S17, "S15": b_S15, "S16": b_S16, "S13": b_S13, "S14": b_S14, "set_v": set_v, "del_v": del_v, "set_w": set_w, "S1": b_S1, "S2": b_S2, "S3": b_S3, "S4": b_S4, "S5": b_S5,
             "S6": b_S6, "S7": b_S7, "S9": b_S9, "S10": b_S10, "S11": b_S11, "S12": b_S12}
